@@ -3,6 +3,7 @@
 
 MAPPER_ASSUME = [
     "the cfg(ellbur_totalmapper_verif) snapshot hook copies the mapper state faithfully",
+    "besides the random walks, a share of the generated layouts with at most 7 (quick) / 8 (thorough) keys in the alphabet is explored exhaustively: breadth-first over every reachable (mapper state, monitor state) with at most 3 / 4 keys held, every operation applied once in every state (counters exhaustive_*)",
     "histories are sampled (seeded random walks with coverage-guided restarts), layouts are small, at most 4 (quick) / 5 (thorough) keys held",
 ]
 
@@ -177,16 +178,16 @@ NOT_APPLICABLE = [
 
 # antecedent counters whose floors are measured by lib/measure_floors.py (one tenth of the minimum over several seeds)
 ANTECEDENTS = {
-    "C01": ["c01_rest_after_firing", "rest_points", "release_all_calls", "distinct_nontrivial"],
-    "C02": ["c02_steps_mapping_and_passthrough", "c02_firings_while_other_in_effect", "c02_acted_releases", "distinct_nontrivial"],
-    "C03": ["c03_presses_with_2plus_candidates", "c03_presses_with_mapping_in_effect", "c03_marker_checks", "c03_presses_mentioned_by_mapping_in_effect", "distinct_nontrivial"],
-    "C04": ["c04_instants", "c04_instants_with_modifier_carrying_mapping_in_effect", "distinct_nontrivial"],
-    "C05": ["c05a_foreign_presses_with_mapping_in_effect", "c05b_empty_layout_steps", "c05c_releases_with_2plus_mappings_in_effect", "c05d_obligations", "c05d_obligations_during_firing", "distinct_nontrivial"],
-    "C06": ["c06_reset_points_with_residual_state", "c06_release_all_with_mapping_in_effect", "c06_probes", "distinct_nontrivial"],
-    "C07": ["c07_norepeat_firings_with_action_key_down_before", "c07_watched_followup_steps", "distinct_nontrivial"],
-    "C08": ["c08_presses_of_other_key_while_armed", "c08_trigger_pressed_again_first", "c08_counts_again_checks", "c08_dup_press_of_absorbed_modifier", "distinct_nontrivial"],
-    "C09": ["c09_special_firings", "c09_ignored_events_while_repeat_pending", "c09_acted_events_while_repeat_pending", "distinct_nontrivial"],
-    "C19": ["c19_steps_with_shared_output_in_effect", "release_all_calls", "distinct_nontrivial"],
+    "C01": ["c01_rest_after_firing", "rest_points", "release_all_calls", "exhaustive_layouts_completed", "exhaustive_transitions", "distinct_nontrivial"],
+    "C02": ["exhaustive_layouts_completed", "exhaustive_transitions", "c02_steps_mapping_and_passthrough", "c02_firings_while_other_in_effect", "c02_acted_releases", "distinct_nontrivial"],
+    "C03": ["exhaustive_layouts_completed", "exhaustive_transitions", "c03_presses_with_2plus_candidates", "c03_presses_with_mapping_in_effect", "c03_marker_checks", "c03_presses_mentioned_by_mapping_in_effect", "distinct_nontrivial"],
+    "C04": ["exhaustive_layouts_completed", "exhaustive_transitions", "c04_instants", "c04_instants_with_modifier_carrying_mapping_in_effect", "distinct_nontrivial"],
+    "C05": ["exhaustive_layouts_completed", "exhaustive_transitions", "c05a_foreign_presses_with_mapping_in_effect", "c05b_empty_layout_steps", "c05c_releases_with_2plus_mappings_in_effect", "c05d_obligations", "c05d_obligations_during_firing", "distinct_nontrivial"],
+    "C06": ["exhaustive_layouts_completed", "exhaustive_transitions", "c06_reset_points_with_residual_state", "c06_release_all_with_mapping_in_effect", "c06_probes", "distinct_nontrivial"],
+    "C07": ["exhaustive_layouts_completed", "exhaustive_transitions", "c07_norepeat_firings_with_action_key_down_before", "c07_watched_followup_steps", "distinct_nontrivial"],
+    "C08": ["exhaustive_layouts_completed", "exhaustive_transitions", "c08_presses_of_other_key_while_armed", "c08_trigger_pressed_again_first", "c08_counts_again_checks", "c08_dup_press_of_absorbed_modifier", "distinct_nontrivial"],
+    "C09": ["exhaustive_layouts_completed", "exhaustive_transitions", "c09_special_firings", "c09_ignored_events_while_repeat_pending", "c09_acted_events_while_repeat_pending", "distinct_nontrivial"],
+    "C19": ["exhaustive_layouts_completed", "exhaustive_transitions", "c19_steps_with_shared_output_in_effect", "release_all_calls", "distinct_nontrivial"],
     "C10": ["wakeups_with_2plus_events", "wakeups_both_devices", "spurious_timeouts", "interruptions", "end_keyboard", "end_tablet", "metamorphic_runs", "distinct_nontrivial"],
     "C11": ["ticks", "firings_with_3plus_ticks", "ticks_with_chord_key_held", "ticks_after_ignored_event", "cancellations_by_other_key", "catchup_polls", "real_clock_timed_polls", "distinct_nontrivial"],
     "C12": ["tablet_on", "tablet_on_with_keys_held", "tablet_on_with_repeat_pending", "tablet_repeated", "kb_events_in_tablet_mode", "post_off_steps", "tablet_and_keyboard_same_wakeup", "distinct_nontrivial"],
